@@ -766,7 +766,7 @@ def check_store_adapter(ctx, fb, rid="R06-11"):
             break
         if p.kind == "return":
             rv = eng.value_of(p.store, p.ret)
-            if rv[0] == "adt" and str(rv[1]).endswith("Ok"):
+            if rv[0] == "adt" and rv[2] == "Ok":
                 if not contains(rv, g):
                     ok, why = False, "Ok(%s) is not the value read from the store" % sh(rv, 100)
                     break
@@ -799,7 +799,7 @@ def check_store_adapter(ctx, fb, rid="R06-11"):
         if p.kind == "return":
             rv = eng.value_of(p.store, p.ret)
             okc = [v for a, v in p.conds() if a == ("ok", g) or contains(a, g)]
-            if rv[0] == "adt" and str(rv[1]).endswith("Ok") and okc and okc[0] is False:
+            if rv[0] == "adt" and rv[2] == "Ok" and okc and okc[0] is False:
                 ok, why = False, "Ok is returned although sled's insert failed"
                 break
     ctx.check(ok, rid, "SledDB::put", "put(k, v) = one unconditional sled insert of (k, v); Ok only if sled reported Ok", why, loc(it))
@@ -856,7 +856,7 @@ def check_store_adapter(ctx, fb, rid="R06-11"):
                 break
             g = ("call", ap[0][1], ap[0][2])
             okc = [v for a, v in p.conds() if contains(a, g)]
-            if rv[0] == "adt" and str(rv[1]).endswith("Ok") and (not okc or okc[-1] is not True):
+            if rv[0] == "adt" and rv[2] == "Ok" and (not okc or okc[-1] is not True):
                 ok, why = False, "Ok is returned without sled's apply_batch having succeeded"
                 break
     ctx.check(ok, rid, "SledDB::put_batch", "put_batch(m) inserts every (k, v) of m, unconditionally, into one batch and applies it", why, loc(it))
